@@ -14,11 +14,11 @@
    Closed forms (proved equal):  sum_dist es == (Sum len) * Kd,
                                  sum_time    == (Sum len/speed) * Kt + (Sum delay) * Kdelay                       *)
 From Coq Require Import ZArith QArith List String Bool.
-From RC Require Import Base.Num Base.Res Model.Units Model.UnitsRun Model.StateOps Model.Traversal.
+From RC Require Import Base.Num Base.Res Model.Units Model.UnitsRun Model.StateOps Model.Traversal Gen.TurnTable.
 Import ListNotations.
 
 Module TSpec.
-Import Units StateOps Traversal.
+Import Units StateOps Traversal TurnTable.
 Local Open Scope Q_scope.
 
 Inductive direction : Set := Forward | Reverse.
@@ -53,6 +53,28 @@ Definition spec_delay (td : turn_delay Q) (e1 e2 : nat) : Q :=
       end
   | _, _ => 0
   end.
+
+(* finite facts about the (regenerated) turn table, proof-free so that a run can still LIST the entries that fail
+   when a changed table breaks the proofs of Proofs/Traversal.v:
+     turn_ok h1 h2   for one pair of headings: the wrapped difference is in [-180, 180], exactly one arm of
+                     Turn::from_angle contains it, from_angle returns that arm's turn, and it is [spec_turn h1 h2]
+     angle_ok a      from_angle a is [spec_class a] wherever it does not fail *)
+Definition heading_range : list Z := map Z.of_nat (seq 0 360).
+Definition angle_range : list Z := map (fun n => (Z.of_nat n - 180)%Z) (seq 0 361).
+Definition rows_matching (a : Z) : nat :=
+  List.length (filter (fun r => (fst (fst r) <=? a)%Z && (a <=? snd (fst r))%Z) turn_ranges).
+Definition turn_ok (h1 h2 : Z) : bool :=
+  match bearing_to_destination (Build_heading h1 None) (Build_heading h2 None) with
+  | Ok a =>
+      (-180 <=? a)%Z && (a <=? 180)%Z && Nat.eqb (rows_matching a) 1
+      && match from_angle a with Ok t => turn_eqb t (spec_turn h1 h2) | _ => false end
+  | _ => false
+  end.
+Definition angle_ok (a : Z) : bool :=
+  match from_angle a with Ok t => turn_eqb t (spec_class a) | _ => true end.
+(* heading pairs (0..359 x 0..359) that fail [turn_ok] *)
+Definition turn_failures : list (Z * Z) :=
+  filter (fun p => negb (turn_ok (fst p) (snd p))) (list_prod heading_range heading_range).
 
 Section Spec.
   Variable inst : instance Q.
